@@ -36,6 +36,40 @@ def same(a, b):
     return e2e.canon(a) == e2e.canon(b)
 
 
+def async_recv_trace(outcomes):
+    """drive the real `SnmpSession._recv` with a scripted receiver: outcomes = list of 'B' | ('V', n) | ('E', name)"""
+    import asyncio
+
+    async def main(port):
+        from gufo.snmp import SnmpVersion
+        from gufo.snmp.async_client import SnmpSession
+        sess = SnmpSession("127.0.0.1", port=port, community="public", version=SnmpVersion.v2c, timeout=0.08)
+        # make the socket readable (and keep it so: the scripted receiver never reads)
+        await sess._send(lambda: sess._sock.send_get("1.3.6"))
+        await asyncio.sleep(0.02)
+        left = list(outcomes)
+        env_ = e2e.env()
+
+        def receiver():
+            if not left:
+                raise BlockingIOError
+            o = left.pop(0)
+            if o == "B":
+                raise BlockingIOError
+            if o[0] == "V":
+                return o[1]
+            raise {"SnmpDecodeError": env_.fast.SnmpDecodeError, "SnmpAuthError": env_.fast.SnmpAuthError,
+                   "NoSuchInstance": env_.fast.NoSuchInstance, "ValueError": ValueError, "TimeoutError": TimeoutError}[o[1]]("scripted")
+        return await sess._recv(receiver)
+
+    def script(dg):
+        return [b"\x30\x00"]        # any datagram: only readiness matters
+    r, _ = e2e.run_async(main, script)
+    if r[0] == "exc" and (r[1].startswith("PySnmp") or r[1] == "PyNoSuchInstance"):
+        return ("exc", r[1][2:], r[2])
+    return r
+
+
 def async_call(peer, op, vbs, as_report):
     """one get / get_many through the real asyncio client against a scripted reply"""
     from props import c18
@@ -170,6 +204,28 @@ def run(chk, model_ok=True):
                      f"{(e2e.canon(r[1]) if r[0] == 'ok' else repr(r))[:90]} for reply {ber.pdu(8 if as_report else 2, 1, 0, 0, vbs).hex()[:100]}",
                      f"topy {op} {ber.pdu(8 if as_report else 2, 1, 0, 0, vbs).hex()}")
     n_e2e += n_async
+    # the async receive loop itself against its model (Py.asyncRecv): scripted outcomes of the socket call
+    tlines, twant = [], []
+    for it in range(12 if quick else 300):
+        outs = []
+        for _ in range(rng.randrange(0, 5)):
+            outs.append(rng.choice(["B", "B", "B", ("V", rng.randrange(100)), ("E", rng.choice(["SnmpDecodeError", "SnmpAuthError", "NoSuchInstance", "ValueError"]))]))
+        r = async_recv_trace(outs)
+        tlines.append("asyncrecv " + (",".join("B" if o == "B" else f"{o[0]}:{o[1]}" for o in outs) or "-"))
+        twant.append(f"pyok {r[1]}" if r[0] == "ok" else f"pyerr {r[1]}")
+        first = next((o for o in outs if o != "B"), None)
+        exp = "pyerr TimeoutError" if first is None else (f"pyok {first[1]}" if first[0] == "V" else f"pyerr {first[1]}")
+        if twant[-1] != exp:
+            fail(f"async _recv with socket outcomes {outs} ended as {twant[-1]}, the first outcome that is not 'nothing yet' is {exp}", tlines[-1])
+    if model_ok and tlines:
+        mo, _, _ = common.run_model(tlines)
+        bad_ = [(l, w, g) for l, w, g in zip(tlines, twant, mo + ["<missing>"] * (len(tlines) - len(mo))) if w != g]
+        if bad_:
+            chk.violation("correspondence", f"async _recv vs Py.asyncRecv: {bad_[0][0]} implementation {bad_[0][1]} model {bad_[0][2]}",
+                          {"kind": "correspondence", "stream": "asyncrecv", "lines": [b[0] for b in bad_[:10]], "impl": [b[1] for b in bad_[:10]],
+                           "model": [b[2] for b in bad_[:10]], "broken": ["correspondence asyncrecv: Lean Py.asyncRecv vs async_client/client.py"]},
+                          no_input=True)
+    n_e2e += len(tlines)
     # the sync session: BlockingIOError -> TimeoutError, values passed through
     from gufo.snmp.sync_client import SnmpSession
     from gufo.snmp import SnmpVersion
